@@ -9,6 +9,14 @@ _DRIVE_SPEC = """    ensures
            &&& (b.len() >= 8 && old(self).state.abs() == m_init() && m_run(b.skip(8), m_init()) is Some) ==>
                  r is Ok && (final(self).state.abs(), final(self).reader.rest()) == m_run(b.skip(8), m_init()).unwrap()
            &&& old(self).state.sizes() ==> final(self).state.sizes()
+           // total (C05): the outcome is the function t_run of the bytes, for every input
+           &&& b.len() < 8 ==> r is Err
+           &&& b.len() >= 8 ==> match t_run(b.skip(8), old(self).state.abs()) {
+                 TOut::Ok { s, rest } => r is Ok && final(self).state.abs() == s && final(self).reader.rest() == rest,
+                 TOut::BadTag { tag } => r is Err && r->Err_0 is InvalidTag && r->Err_0->InvalidTag_0 == tag,
+                 TOut::BadColl => r is Err && r->Err_0 is InvalidCollection,
+                 TOut::Short => r is Err,
+               }
         }),"""
 
 _DRIVE_LOOP = """
@@ -18,7 +26,11 @@ _DRIVE_LOOP = """
             old(self).state.sizes() ==> self.state.sizes(),
             wf0 <==> (b0.len() >= 8 && old(self).state.abs() == m_init() && m_run(b0.skip(8), m_init()) is Some),
             wf0 ==> m_run(self.reader.rest(), self.state.abs()) == m_run(b0.skip(8), m_init()),
+            a0 == old(self).state.abs(),
+            b0.len() >= 8,
+            t_run(self.reader.rest(), self.state.abs()) == t_run(b0.skip(8), a0),
         ensures
+            t_run(b0.skip(8), a0) == (TOut::Ok { s: self.state.abs(), rest: self.reader.rest() }),
             Some(self.reader.rest()) == scan_rest(b0.skip(8)),
             wf0 ==> Some((self.state.abs(), self.reader.rest())) == m_run(b0.skip(8), m_init()),
             old(self).state.sizes() ==> self.state.sizes(),
@@ -37,19 +49,30 @@ _PV_SPEC = """    ensures
                ==> r is Ok && final(self).state.abs() == m_value(old(self).state.abs(), tag, str_of(lossy(b.skip(2).take(be16(b) as int))),
                                   b.skip(2).skip(be16(b) as int).skip(2).take(be16(b.skip(2).skip(be16(b) as int)) as int))
            &&& old(self).state.sizes() ==> final(self).state.sizes()
+           // total (C05)
+           &&& !(b.len() >= 2 && b.len() >= 2 + be16(b) as int + 2
+                 && b.len() >= 2 + be16(b) as int + 2 + be16(b.skip(2).skip(be16(b) as int)) as int) ==> r is Err
+           &&& (b.len() >= 2 && b.len() >= 2 + be16(b) as int + 2
+                 && b.len() >= 2 + be16(b) as int + 2 + be16(b.skip(2).skip(be16(b) as int)) as int) ==>
+               match t_value(old(self).state.abs(), tag, str_of(lossy(b.skip(2).take(be16(b) as int))),
+                             b.skip(2).skip(be16(b) as int).skip(2).take(be16(b.skip(2).skip(be16(b) as int)) as int)) {
+                 TStep::Ok { s } => r is Ok && final(self).state.abs() == s,
+                 TStep::BadColl => r is Err && r->Err_0 is InvalidCollection,
+                 TStep::Short => r is Err,
+               }
         }),"""
 
 
 def _front(ty):
     return [
-        # generic `T: Into<Reader>` is outside Verus: the constructor's body (reader.into(), ParserState::new()) is trusted
+        # verified: starts from ParserState::new(); what `reader.into()` (generic Into<Reader>) returns is not specified
         {'op': 'fn', 'path': f'{ty}::new', 'ret': 'r',
          'spec': '    ensures r.fresh(), r.sizes_ok(),'},
         {'op': 'fn', 'path': f'{ty}::parse_value', 'ret': 'r', 'spec': _PV_SPEC},
         {'op': 'fn', 'path': f'{ty}::parse_header_attributes', 'ret': 'r', 'spec': _DRIVE_SPEC,
          'loops': {0: _DRIVE_LOOP},
          'proofs': [{'at_start': True,
-                     'text': 'let ghost b0 = old(self).reader.rest(); let ghost wf0 = b0.len() >= 8 && old(self).state.abs() == m_init() && m_run(b0.skip(8), m_init()) is Some;'}]},
+                     'text': 'let ghost b0 = old(self).reader.rest(); let ghost a0 = old(self).state.abs(); let ghost wf0 = b0.len() >= 8 && old(self).state.abs() == m_init() && m_run(b0.skip(8), m_init()) is Some;'}]},
         {'op': 'fn', 'path': f'{ty}::parse_parts', 'ret': 'r', 'w9_mut_self': True,
          'spec': """    ensures
         ({ let b = self.rest();
@@ -60,6 +83,14 @@ def _front(ty):
                  && (r->Ok_0).1.sgroups().map_values(|g: IppAttributeGroup| abs_mgroup(g)) == m_message(b).unwrap().0
                  && (r->Ok_0).2.rest() == m_message(b).unwrap().1
            &&& (self.sizes_ok() && r is Ok) ==> groups_sizes((r->Ok_0).1.sgroups())
+           // total (C05): for every input the outcome is the function t_message of the bytes
+           &&& self.fresh() ==> match t_message(b) {
+                 TOut::Ok { s, rest } => r is Ok && (r->Ok_0).1.sgroups().map_values(|g: IppAttributeGroup| abs_mgroup(g)) == s.groups
+                                          && (r->Ok_0).2.rest() == rest,
+                 TOut::BadTag { tag } => r is Err && r->Err_0 is InvalidTag && r->Err_0->InvalidTag_0 == tag,
+                 TOut::BadColl => r is Err && r->Err_0 is InvalidCollection,
+                 TOut::Short => r is Err,
+               }
         }),"""},
         {'op': 'fn', 'path': f'{ty}::parse', 'ret': 'r', 'w9_mut_self': True,
          'spec': """    ensures
@@ -70,6 +101,13 @@ def _front(ty):
            &&& (self.fresh() && m_message(b) is Some) ==> r is Ok
                  && (r->Ok_0).sattrs().sgroups().map_values(|g: IppAttributeGroup| abs_mgroup(g)) == m_message(b).unwrap().0
            &&& (self.sizes_ok() && r is Ok) ==> groups_sizes((r->Ok_0).sattrs().sgroups())
+           // total (C05)
+           &&& self.fresh() ==> match t_message(b) {
+                 TOut::Ok { s, rest } => r is Ok && (r->Ok_0).sattrs().sgroups().map_values(|g: IppAttributeGroup| abs_mgroup(g)) == s.groups,
+                 TOut::BadTag { tag } => r is Err && r->Err_0 is InvalidTag && r->Err_0->InvalidTag_0 == tag,
+                 TOut::BadColl => r is Err && r->Err_0 is InvalidCollection,
+                 TOut::Short => r is Err,
+               }
         }),"""},
     ]
 
@@ -79,8 +117,8 @@ OPS = [
                               '#[allow(unused_imports)] use crate::verif_ext::*;\n'
                               '#[allow(unused_imports)] use crate::verif_spec::*;\n'
                               '#[allow(unused_imports)] use crate::verif_tables::*;\n'
-                              '#[allow(unused_imports)] use crate::verif_machine::*;\n'
-                              '#[allow(unused_imports)] use vstd::future::FutureAdditionalSpecFns;\n#[allow(unused_imports)] use vstd::std_specs::iter::IteratorSpec;\n'
+                              '#[allow(unused_imports)] use crate::verif_machine::*;\n#[allow(unused_imports)] use crate::verif_total::*;\n'
+                              '#[allow(unused_imports)] use vstd::future::FutureAdditionalSpecFns;\n'
                               'verus! { broadcast use {crate::verif_ext::group_ipp_seq, crate::verif_ext::axiom_string_key_model, vstd::std_specs::hash::group_hash_axioms, crate::verif_ext::group_ipp_machine, vstd::std_specs::btree::group_btree_axioms, crate::request::lemma_req_view}; }'},
     {'op': 'wrap', 'items': ['enum IppParseError', 'fn list_or_value', 'struct ParserState', 'impl ParserState',
                              'struct IppParser', 'impl IppParser', 'struct AsyncIppParser', 'impl AsyncIppParser']},
@@ -134,26 +172,33 @@ impl ParserState {
     {'op': 'fn', 'path': 'ParserState::new', 'ret': 'r',
      'spec': '    ensures r.sizes(), ({ let a = r.abs(); let b = m_init(); a.groups =~= b.groups && a.cur =~~= b.cur && a.name == b.name && a.stack =~~= b.stack }),'},
     {'op': 'fn', 'path': 'ParserState::add_last_attribute',
-     'proofs': [{'at_start': True, 'text': 'proof { reveal(m_flush); }'}],
+     'proofs': [{'at_start': True, 'text': 'proof { reveal(m_flush); reveal(t_flush); }'}],
      'spec': '''    ensures
         old(self).sizes() ==> final(self).sizes(),
+        ({ let a = final(self).abs(); let b = t_flush(old(self).abs()); a.groups =~= b.groups && a.cur =~~= b.cur && a.name == b.name && a.stack =~~= b.stack }),
         old(self).abs().stack.len() >= 1 ==> ({ let a = final(self).abs(); let b = m_flush(old(self).abs()); a.groups =~= b.groups && a.cur =~~= b.cur && a.name == b.name && a.stack =~~= b.stack }),'''},
     {'op': 'fn', 'path': 'ParserState::parse_delimiter', 'ret': 'r',
      'spec': """    ensures
         r is Ok <==> delimiter_tag_of(tag as int) is Some,
         r is Ok ==> Some(r->Ok_0) == delimiter_tag_of(tag as int),
         old(self).sizes() ==> final(self).sizes(),
-        r is Ok && m_delim_legal(old(self).abs()) ==> ({ let a = final(self).abs(); let b = m_delim(old(self).abs(), r->Ok_0); a.groups =~= b.groups && a.cur =~~= b.cur && a.name == b.name && a.stack =~~= b.stack }),""",
-     'proofs': [{'at_start': True, 'text': 'proof { reveal(m_flush); reveal(m_delim); }'},
+        r is Ok && m_delim_legal(old(self).abs()) ==> ({ let a = final(self).abs(); let b = m_delim(old(self).abs(), r->Ok_0); a.groups =~= b.groups && a.cur =~~= b.cur && a.name == b.name && a.stack =~~= b.stack }),
+        r is Ok ==> ({ let a = final(self).abs(); let b = t_delim(old(self).abs(), r->Ok_0); a.groups =~= b.groups && a.cur =~~= b.cur && a.name == b.name && a.stack =~~= b.stack }),""",
+     'proofs': [{'at_start': True, 'text': 'proof { reveal(m_flush); reveal(m_delim); reveal(t_delim); reveal(t_flush); }'},
                 {'before': 'let tag = DelimiterTag::from_u8', 'optional': True,
                  'text': 'proof { axiom_delimiter_tag_from(tag as int); }'}]},
     {'op': 'fn', 'path': 'ParserState::parse_value', 'ret': 'r',
      'spec': '''    ensures
         old(self).sizes() ==> final(self).sizes(),
-        m_value_legal(old(self).abs(), tag, name, buf_seq(&value)) ==> r is Ok && ({ let a = final(self).abs(); let b = m_value(old(self).abs(), tag, name, buf_seq(&value)); a.groups =~= b.groups && a.cur =~~= b.cur && a.name == b.name && a.stack =~~= b.stack }),''',
+        m_value_legal(old(self).abs(), tag, name, buf_seq(&value)) ==> r is Ok && ({ let a = final(self).abs(); let b = m_value(old(self).abs(), tag, name, buf_seq(&value)); a.groups =~= b.groups && a.cur =~~= b.cur && a.name == b.name && a.stack =~~= b.stack }),
+        match t_value(old(self).abs(), tag, name, buf_seq(&value)) {
+            TStep::Ok { s: b } => r is Ok && ({ let a = final(self).abs(); a.groups =~= b.groups && a.cur =~~= b.cur && a.name == b.name && a.stack =~~= b.stack }),
+            TStep::BadColl => r is Err && r->Err_0 is InvalidCollection,
+            TStep::Short => r is Err,
+        },''',
      'loops': {0: {'iter_name': 'it', 'spec': '''
         invariant
-            it.snapshot@.remaining() == arr0,
+            it_rem(it.snapshot@) == arr0,
             vstd::laws_cmp::obeys_cmp::<String>(),
             sz0 ==> forall|j: int| 0 <= j < arr0.len() ==> size_ok(aval(#[trigger] arr0[j])),
             sz0 ==> forall|k: String| #[trigger] map@.contains_key(k) ==> size_ok(aval(map@[k])),
@@ -162,15 +207,16 @@ impl ParserState {
                abs_map(map@) =~= acc.0 && name == acc.1 && abs_vals(values@) =~= acc.2 }),
 '''}},
      'proofs': [
-         {'at_start': True, 'text': '''proof { reveal(m_flush); reveal(m_value); reveal(m_value_legal); reveal(pair_map); }
+         {'at_start': True, 'text': '''proof { reveal(t_flush); reveal(t_value); reveal(pair_map); }
         let ghost s0 = self.abs(); let ghost body = buf_seq(&value); let ghost sz0 = self.sizes();
-        let ghost legal = m_value_legal(s0, tag, name, body); let ghost nm = name;'''},
+        let ghost legal = m_value_legal(s0, tag, name, body); let ghost nm = name;
+        proof { if legal { crate::verif_total::lemma_t_value_m(s0, tag, nm, body); } }'''},
          {'before': 'if tag == ValueTag::BegCollection as u8 {', 'optional': True, 'text': '''
-        let ghost s1 = if nm@.len() > 0 { let f = m_flush(s0); MState { groups: f.groups, cur: f.cur, name: Some(nm), stack: f.stack } } else { s0 };
-        proof { if legal { let a = self.abs(); assert(a.groups =~= s1.groups && a.cur =~~= s1.cur && a.name == s1.name && a.stack =~~= s1.stack); assert(a == s1); } }
+        let ghost s1 = t_named(s0, nm);
+        proof { let a = self.abs(); assert(a.groups =~= s1.groups && a.cur =~~= s1.cur && a.name == s1.name && a.stack =~~= s1.stack); assert(a == s1); }
 '''},
          {'after': 'self.context.push(vec![]);', 'optional': True, 'text': '''
-            proof { if legal { let a = self.abs(); let b = m_value(s0, tag, nm, body); assert(a.stack =~~= b.stack); } }'''},
+            proof { let a = self.abs(); assert(a.stack =~~= s1.stack.push(Seq::<AVal>::empty())); }'''},
          {'before': 'let mut map: BTreeMap<String, IppValue>', 'optional': True,
           'text': 'let ghost arr0 = arr@; proof { axiom_string_obeys_cmp(); }'},
          {'before': 'if let IppValue::MemberAttrName(k) = v {', 'optional': True, 'text': '''
@@ -183,13 +229,20 @@ impl ParserState {
          {'after': 'values.push(v);', 'optional': True, 'text': '''
                             proof { assert(abs_vals(values@) =~= acc.2.push(aval(v))); }'''},
          {'before': 'val_list.push(IppValue::Collection(map));', 'optional': True, 'text': '''
-                    proof { if legal { assert(abs_map(map@) =~= pair_map(abs_vals(arr0))); }
+                    proof { assert(abs_map(map@) =~= pair_map(abs_vals(arr0)));
                             if sz0 { axiom_bt_order_set(map@.dom()); assert(size_ok(aval(IppValue::Collection(map)))); } }
 '''},
          {'after': 'val_list.push(IppValue::Collection(map));', 'optional': True, 'text': '''
-                    proof { if legal { let a = self.abs(); let b = m_value(s0, tag, nm, body);
-                        assert(abs_vals(arr0) =~= s1.stack.last()); assert(a.stack =~~= b.stack); } }'''},
+                    proof { let a = self.abs(); let st = s1.stack.drop_last();
+                        assert(abs_vals(arr0) =~= s1.stack.last());
+                        assert(a.stack =~~= st.update(st.len() - 1, st.last().push(coll_of(pair_map(s1.stack.last()))))); }'''},
          {'after': 'val_list.push(ipp_value);', 'optional': True, 'text': '''
-            proof { if legal { let a = self.abs(); let b = m_value(s0, tag, nm, body); assert(a.stack =~~= b.stack); } }'''},
+            proof { let a = self.abs(); let top = s1.stack.len() - 1;
+                assert(a.stack =~~= s1.stack.update(top, s1.stack[top].push(aval(ipp_value)))); }'''},
+         {'before': 'Ok(())', 'optional': True, 'text': '''
+        proof { let a = self.abs();
+            if tag == T_ENDCOLLECTION && s1.stack.len() == 1 { assert(a.stack =~~= s1.stack.drop_last()); }
+            if s1.stack.len() == 0 && tag != T_BEGCOLLECTION { assert(a.stack =~~= s1.stack); } }
+'''},
      ]},
 ] + _front('IppParser') + _front('AsyncIppParser')
